@@ -92,6 +92,9 @@ def ev_of(line):
 def compare(ctx, prop, histories, results, tag="seq"):
     """correspondence: first differing observation per run -> ctx.broken; returns number of differing lines"""
     ndiff, first = 0, None
+    # a few of the actual cases of this run, for the evidence file
+    pool = [(h, io) for h, (io, mo) in zip(histories, results) if io]
+    ctx.samples = [{"ops": [x if len(x) < 160 else x[:120] + "..." for x in h[-4:]], "impl": [core(r)[:240] for r in io[-4:]]} for (h, io) in pool[:: max(1, len(pool) // 4)][:4]]
     for h, (io, mo) in zip(histories, results):
         unknown = False
         for k, o in enumerate(h):
